@@ -628,6 +628,26 @@ pub fn universe(tier: Tier) -> Vec<MsgFamily> {
             }),
         });
     }
+    // F7b: messages whose STANDARD HEADER begins with the DLT magic numbers: 'DLS\x01' (the serial
+    // header pattern) and 'DLT\x01' (the storage pattern) are legal header bytes: version 2, WEID,
+    // counter 'L', length 0x5301 / 0x5401.
+    {
+        let sp = Space::new(&[2, 4, 2]);
+        let s2 = sp.clone();
+        fams.push(MsgFamily {
+            name: "u.magic_prefix",
+            about: "messages whose first four header bytes are 'DLS\\x01' or 'DLT\\x01' (HTYP 0x44: version 2 + ECU id, MCNT 'L', LEN 0x5301 / 0x5401) x ECU id {ECU1, '$ECU' (looks like a nested header), 'DLS\\x01', ''} x storage header".into(),
+            size: sp.size(),
+            gen: Box::new(move |i| {
+                let c = s2.coords(i);
+                let total: usize = if c[0] == 0 { 0x5301 } else { 0x5401 };
+                let mut m = msg_with(0x04, 2, None, RefPayload::NonVerbose(0x0102_0304, (0..total - 8 - 4).map(|k| (k % 251) as u8).collect()), st_opt(c[2]));
+                m.mcnt = b'L';
+                m.ecu = Some(["ECU1", "$ECU", "DLS\u{1}", ""][c[1]].to_string());
+                normalize(m)
+            }),
+        });
+    }
     // F8: length sweeps -- every length (not only round boundary values) of every length-prefixed
     // or length-derived field
     {
@@ -648,11 +668,11 @@ pub fn universe(tier: Tier) -> Vec<MsgFamily> {
     // F9: count sweeps -- every argument count / slice count 0..=255
     {
         let alpha = arg_seq_alphabet(Tier::Thorough);
-        let sp = Space::new(&[3, 256, 2]);
+        let sp = Space::new(&[6, 256, 2]);
         let s2 = sp.clone();
         fams.push(MsgFamily {
             name: "u.count_sweep",
-            about: "every NOAR 0..=255: n bool arguments / n arguments cycling through all kinds of A_seq / n network-trace slices of varying sizes; x byte order".into(),
+            about: "every NOAR 0..=255: n bool arguments / n arguments cycling through all kinds of A_seq / n network-trace slices of varying sizes / n uint32 arguments whose string coding and trace-info bits differ from argument to argument / n sint16 likewise with variable info on every 5th / n float64 of varying values; x byte order".into(),
             size: sp.size(),
             gen: Box::new(move |i| {
                 let c = s2.coords(i);
@@ -661,7 +681,11 @@ pub fn universe(tier: Tier) -> Vec<MsgFamily> {
                 match c[0] {
                     0 => msg_with(fl, 1, Some(ext(MSTP_LOG, 4, "A", "C")), RefPayload::Verbose((0..n).map(|j| mk_arg(RefKind::Bool, None, 0, false, RefValue::Bool((j % 2) as u8), None)).collect()), None),
                     1 => msg_with(fl | 0x04, 1, Some(ext(MSTP_LOG, 2, "AP", "CT")), RefPayload::Verbose((0..n).map(|j| alpha[(j * 7 + n) % alpha.len()].clone()).collect()), None),
-                    _ => msg_with(fl, 1, Some(ext(MSTP_NW_TRACE, 3, "NW", "TR")), RefPayload::NetworkTrace((0..n).map(|j| vec![j as u8; (j * 3 + n) % 6]).collect()), None),
+                    2 => msg_with(fl, 1, Some(ext(MSTP_NW_TRACE, 3, "NW", "TR")), RefPayload::NetworkTrace((0..n).map(|j| vec![j as u8; (j * 3 + n) % 6]).collect()), None),
+                    // homogeneous runs whose per-argument type-info bits differ (SCOD, TRAI, VARI)
+                    3 => msg_with(fl, 1, Some(ext(MSTP_LOG, 4, "A", "C")), RefPayload::Verbose((0..n).map(|j| mk_arg(RefKind::Uint(4), None, [0u8, 0, 2, 0, 1, 7, 0, 3][(j + n) % 8], j % 3 == 1, RefValue::U(0x0102_0304 ^ j as u128, 4), None)).collect()), None),
+                    4 => msg_with(fl, 1, Some(ext(MSTP_LOG, 4, "A", "C")), RefPayload::Verbose((0..n).map(|j| mk_arg(RefKind::Sint(2), if j % 5 == 4 { Some(("n", "u")) } else { None }, ((j * 3) % 8) as u8, j % 4 == 3, RefValue::I(-(j as i128) - 1, 2), None)).collect()), None),
+                    _ => msg_with(fl, 1, Some(ext(MSTP_LOG, 4, "A", "C")), RefPayload::Verbose((0..n).map(|j| mk_arg(RefKind::Float(8), None, 0, j == n / 2, RefValue::F64(0x3FF0_0000_0000_0000 + j as u64 * 0x0001_0203_0405), None)).collect()), None),
                 }
             }),
         });
